@@ -306,14 +306,33 @@ def last_seg(cid):
     return cid.rsplit("::", 1)[-1]
 
 
+def lift_positional_ctor(F, ev, b, bi, si, s):
+    """(body, env, block, aggregate term, statement) of a struct construction site — lifted to the only caller when the
+    site is a private positional constructor (`fn from_parts(a, b, ..) -> Self { Self { a, b, .. } }`): the values are
+    computed in that caller and are judged there, with the helper inlined"""
+    env = Env(b)
+    agg = ev.rvalue(env, s["rv"], (bi, si))
+    if b.j.get("vis") != "pub" and not b.j.get("impl", {}).get("trait") and all(t[0] == "param" for _f, t in agg[3]):
+        sites = [(c, cbi, t) for c in F.bodies.values() if c.kind != "Closure" for cbi, t in c.calls()
+                 if "fn" in t and (t["fn"].get("resolved_key") or t["fn"].get("key")) == b.key]
+        if len(sites) == 1:
+            c, cbi, t = sites[0]
+            cenv = Env(c)
+            v = ev.call_val(cenv, cbi)
+            while v[0] in ("payload", "opt") and len(v) > 1 and isinstance(v[1], tuple):
+                v = v[1]
+            if v[0] == "agg" and v[1] == agg[1]:
+                return c, cenv, cbi, v, {"span": t.get("span"), "k": "call"}
+    return b, env, bi, agg, s
+
+
 def ctor_fields(F, ev):
     ctors = stats_ctor_bodies(F)
     if len(ctors) != 1:
         raise AnchorMissing("FitStatistics constructor sites: %d" % len(ctors))
     b, bi, si, s = ctors[0]
-    env = Env(b)
     ev.fresh_ctx()
-    agg = ev.rvalue(env, s["rv"], (bi, si))
+    b, env, bi, agg, s = lift_positional_ctor(F, ev, b, bi, si, s)
     return b, env, dict(agg[3]), s, bi
 
 
